@@ -2,7 +2,9 @@ package props
 
 import (
 	"bytes"
+	"encoding/binary"
 	"fmt"
+	"hash/crc32"
 	"strings"
 
 	"verif/core"
@@ -16,6 +18,9 @@ type C04Case struct {
 	Stream string
 	Mut    *ByteMut `json:",omitempty"`
 	Edit   string   `json:",omitempty"`
+	// SealBit >= 0: flip this bit (absolute bit index) of a CRC32-protected metadata field and
+	// recompute the CRC32 that protects it
+	SealBit int `json:",omitempty"`
 }
 
 func init() {
@@ -27,7 +32,9 @@ func init() {
 			if s.Name != p.Stream {
 				continue
 			}
-			if p.Mut != nil {
+			if p.SealBit > 0 {
+				c04Sealed(r, s, p.SealBit, newSiteMap(s))
+			} else if p.Mut != nil {
 				c04Byte(r, s, *p.Mut, newSiteMap(s))
 			} else {
 				for _, e := range structEdits(8) {
@@ -106,6 +113,68 @@ func c04Byte(r *core.Run, s Stream, m ByteMut, sm *siteMap) {
 	c04Judge(r, cs, s, mutated, site, fmt.Sprintf("stream %s (%d bytes): %s", s.Name, len(s.Data), m), false)
 }
 
+// sealRegion is a run of metadata bytes protected by one CRC32.
+type sealRegion struct {
+	start, end       int // bytes whose bits are flipped
+	crcOff           int // where the CRC32 is stored
+	crcStart, crcEnd int // bytes it covers
+}
+
+// sealRegions lists the CRC32-protected metadata of a valid single stream: stream header flags,
+// every block header (without its size byte, which moves the CRC), the index, the footer fields.
+func sealRegions(data []byte) []sealRegion {
+	x := ref.DecodeXZ(data, ref.XZOptions{})
+	if x.Err != nil || len(x.Streams) != 1 {
+		return nil
+	}
+	st := x.Streams[0]
+	var out []sealRegion
+	out = append(out, sealRegion{st.Off + 6, st.Off + 8, st.Off + 8, st.Off + 6, st.Off + 8})
+	for _, b := range st.Blocks {
+		h := b.DataOff - b.HeaderLen
+		out = append(out, sealRegion{h + 1, h + b.HeaderLen - 4, h + b.HeaderLen - 4, h, h + b.HeaderLen - 4})
+	}
+	out = append(out, sealRegion{st.IndexOff, st.IndexOff + st.IndexLen - 4, st.IndexOff + st.IndexLen - 4, st.IndexOff, st.IndexOff + st.IndexLen - 4})
+	out = append(out, sealRegion{st.FooterOff + 4, st.FooterOff + 10, st.FooterOff, st.FooterOff + 4, st.FooterOff + 10})
+	return out
+}
+
+// c04Sealed flips one bit of a protected metadata field and re-seals the CRC32 over it, so that
+// only the cross-checks behind the CRC can notice. Every such flip makes the metadata
+// inconsistent with the rest of the file except a flip inside the dictionary-size byte (a
+// different, possibly still sufficient window) - there only clause (1) is judged. The reference
+// must agree that the file is broken, otherwise only clause (1) is judged as well.
+func c04Sealed(r *core.Run, s Stream, bit int, sm *siteMap) {
+	pos := bit / 8
+	var reg *sealRegion
+	regs := sealRegions(s.Data)
+	for i := range regs {
+		if pos >= regs[i].start && pos < regs[i].end {
+			reg = &regs[i]
+		}
+	}
+	if reg == nil {
+		return
+	}
+	mutated := append([]byte(nil), s.Data...)
+	mutated[pos] ^= 1 << uint(bit%8)
+	c := crc32.ChecksumIEEE(mutated[reg.crcStart:reg.crcEnd])
+	binary.LittleEndian.PutUint32(mutated[reg.crcOff:], c)
+	field := sm.at(pos)
+	mustErr := field != "block.header.dictcode"
+	if mustErr {
+		// a flip that only makes a multibyte integer non-minimal leaves every value as it was:
+		// unusual encoding, consistent metadata - outside clause (2)
+		if x := ref.DecodeXZ(mutated, ref.XZOptions{LenientVarint: true}); x.Err == nil && bytes.Equal(x.Out, s.Plain) {
+			mustErr = false
+			r.Count("sealed_flip_values_unchanged(non-minimal integer)", 1)
+		}
+	}
+	cs := core.MkCase("C04", "mutate", C04Case{Stream: s.Name, SealBit: bit})
+	r.Count("sealed_flips", 1)
+	c04Judge(r, cs, s, mutated, "xz sealed-flip@"+field, fmt.Sprintf("stream %s (%d bytes): bit %d of byte %d (%s) flipped, CRC32 re-sealed", s.Name, len(s.Data), bit%8, pos, field), mustErr)
+}
+
 func c04Struct(r *core.Run, s Stream, e StructEdit) {
 	m, err := xzModelOf(s.Data)
 	if err != nil {
@@ -169,13 +238,14 @@ func runC04(r *core.Run) {
 	if th {
 		level = 1
 	}
-	r.Rule = "for each base .xz stream (library- and reference-written; 1-3 blocks; CRC32/CRC64/SHA-256/none; size fields; all chunk kinds): every single-bit flip; bursts at every start bit x lengths x {invert,set0,set1,alternate}; deletion of every byte; insertion at every offset of {00,FF,neighbour}; and every field-level edit of the structural mutator (sizes ±1/x2/added wrong, record count, record fields, backward size, header vs footer flags, paddings, reserved bits, unsupported check/filter ids, dictionary byte, check value) with all CRC32s re-sealed. non-trivial = distinct (stream, outcome class, bytes delivered)"
+	r.Rule = "for each base .xz stream (library- and reference-written; 1-3 blocks; CRC32/CRC64/SHA-256/none; size fields; all chunk kinds): every single-bit flip; bursts at every start bit x lengths x {invert,set0,set1,alternate}; deletion of every byte; insertion at every offset of {00,FF,neighbour}; and every field-level edit of the structural mutator (sizes ±1/x2/added wrong, record count, record fields, backward size, header vs footer flags, paddings, reserved bits, unsupported check/filter ids, dictionary byte, check value) with all CRC32s re-sealed; and every single-bit flip of every CRC32-protected metadata byte (stream header flags, block headers, index, footer fields) with that CRC32 re-sealed. non-trivial = distinct (stream, outcome class, bytes delivered)"
 	streams := c04Streams(level)
 	type job struct {
 		s  Stream
 		m  *ByteMut
 		e  *StructEdit
 		sm *siteMap
+		sb int
 	}
 	var jobs []job
 	lens := []int{2, 3, 7, 8, 9, 16, 32}
@@ -206,6 +276,11 @@ func runC04(r *core.Run) {
 				}
 			}
 		}
+		for _, reg := range sealRegions(s.Data) {
+			for b := reg.start * 8; b < reg.end*8; b++ {
+				jobs = append(jobs, job{s: s, sm: sm, sb: b})
+			}
+		}
 		x := ref.DecodeXZ(s.Data, ref.XZOptions{})
 		es := structEdits(len(x.Streams[0].Blocks))
 		for i := range es {
@@ -224,9 +299,12 @@ func runC04(r *core.Run) {
 	r.Sample(map[string]interface{}{"stream": streams[1].Name, "edit": "index.rec1.unpadded+1 (CRC re-sealed)"})
 	r.Parallel(len(jobs), "mutations", func(i int) {
 		j := jobs[i]
-		if j.m != nil {
+		switch {
+		case j.sb > 0:
+			c04Sealed(r, j.s, j.sb, j.sm)
+		case j.m != nil:
 			c04Byte(r, j.s, *j.m, j.sm)
-		} else {
+		default:
 			c04Struct(r, j.s, *j.e)
 		}
 	})
